@@ -10,6 +10,7 @@ CHECKS = {
  "C06": ("Real dispatcher on one message of every type code, debug and normal mode, against routing tables parsed from README.md at run time; field extraction per message layout; ownership via double-free and leak checks; queue bound/drop-oldest/FIFO/once-only at the literal bound 128 and, with full read-back, at scaled bounds 2-4.", "DESIGN 4/C06"),
  "C08": ("Occupied/free, multiple and address reports with arbitrary payloads on a world of 3 segments over 2 boards and 1-2 trains: segment lists == reference, train on-track/orientation/position derived from the lists, one critical section; the position getter as its own unit on arbitrary lists.", "DESIGN 4/C08"),
  "C13": ("Section parsers (aspect, dcc aspect port, calibration; thorough: all 16 parser entry points incl. the three file parsers) on EVERY well-nested yaml event sequence of <= K events with scalars from the section vocabulary, malformed numbers and arbitrary short strings: no invalid pointer use, every event deleted once, locks released, clean-up afterwards; string converters on arbitrary strings. Start/stop failure path: C16.", "DESIGN 4/C13"),
+ "C14": ("Uniqueness rules of every bidib_state_add_* function (ids per kind, unique ids, dcc addresses shared between trains and accessories) on an arbitrary configured world with an arbitrary new entity; real aspect / calibration / train-function record parsers on concrete skeletons with symbolic values: accepted iff well-formed and unambiguous, stored as declared; every enumeration getter returns exactly the declared items incl. boosters / track outputs from the class bits and the connected_* variants.", "DESIGN 4/C14"),
  "C15": ("Real node-table enumeration (bidib_state_init_allocation_table / query_nodetab) against a simulated bus answering the real NODETAB requests for 4 tree shapes over 3 levels with arbitrary unique ids vs 2 configured boards, with a table-change notice injected after any of the first 5 requests; one arbitrary NODE_NEW/NODE_LOST vs reference subtree semantics; is_subnode as a total function.", "DESIGN 4/C15"),
  "C16": ("Real bidib_start_pointer / bidib_stop over 2-3 consecutive sessions with arbitrary mode, flush interval, config validity and interface answer, incl. start-while-running and stop-while-stopped: exact shutdown event order, every created thread handle joined exactly once (handle monitor), failed start leaves the library stopped, process-lifetime globals restored; the real zero-speed step over 2 boards x 2 trains.", "DESIGN 4/C16"),
  "C17": ("Every public getter called twice on an arbitrary state with an arbitrary <=2-character (or NULL) id: results field-wise equal (CBMC's nondeterministic uninitialised memory makes any indeterminate flag/count/pointer/known-value differ), still valid after bidib_state_free (deep copy), freed once each with the documented free function (invalid/double free checks); bidib_get_state vs every single-entity getter, all fields.", "DESIGN 4/C17"),
